@@ -59,7 +59,8 @@ def run(chk, build):
     # forced schedules: one thread is stopped at its j-th yield point (constructor / generate() entries of the code generators,
     # entries of generate / merge_models) while the other pipeline runs to its end, then resumes.  Deterministic, replayable.
     sjobs = []
-    pairs = [("g", "h"), ("h", "g"), ("g", "i"), ("i", "h"), ("e", "f"), ("a", "c"), ("b", "d"), ("j", "k")] if tier == "quick" else list(itertools.permutations(PIPE, 2))
+    pairs = [("g", "h"), ("h", "g"), ("g", "i"), ("i", "h"), ("e", "f"), ("a", "c"), ("b", "d"), ("j", "k"),
+             ("a", "b"), ("b", "a"), ("a", "j"), ("e", "b")] if tier == "quick" else list(itertools.permutations(PIPE, 2))
     for pa, pb in pairs:
         for j in range(1, 25 if tier == "quick" else 61):
             sjobs.append(((pa, pb), [[0, j], [1, 10 ** 6]]))
